@@ -9,8 +9,11 @@ GROUP = dict(
     aliases=[(NV, 'NextVec'), (SV, 'SlotVec'), (BOX, 'Box'), (A, 'IdAlloc'), ('babylon::VersionedValue<unsigned int>', 'VV'), ('babylon_vf::', '')],
     opaque_by_value=[NV, SV, 'absl::optional<babylon_vf::Item>'],
     outside_methods={'absl::optional<babylon_vf::Item>': ['operator*', 'emplace']},
-    extern_re=[r'ConcurrentVector<std::atomic<unsigned int>,\s*128>::(operator\[\]|ensure)', r'ConcurrentVector<babylon::DepositBox<babylon_vf::Item>::Slot,\s*0>::(operator\[\]|ensure)'],
-    roots=[A + '::allocate', A + '::deallocate', BOX + '::take_released', BOX + '::emplace', BOX + '::finish_released'],
+    extern_re=[r'IdAllocator<unsigned short>::(allocate|deallocate)', r'ConcurrentVector<std::atomic<unsigned int>,\s*128>::(operator\[\]|ensure)', r'ConcurrentVector<babylon::DepositBox<babylon_vf::Item>::Slot,\s*0>::(operator\[\]|ensure)'],
+    roots=[BOX + '::Accessor::Accessor', BOX + '::Accessor::operator=', BOX + '::Accessor::~Accessor',
+           'babylon::internal::ThreadIdImpl<-1>::ThreadIdImpl', 'babylon::internal::ThreadIdImpl<-1>::~ThreadIdImpl',
+           'babylon::internal::ThreadIdImpl<0>::ThreadIdImpl', 'babylon::internal::ThreadIdImpl<0>::~ThreadIdImpl',
+           A + '::allocate', A + '::deallocate', BOX + '::take_released', BOX + '::emplace', BOX + '::finish_released'],
     reviewed_compiler_conditionals=[],
     assumptions=['SC; RMW atomicity; fewer than 2^32-1 pushes and fewer than 2^32-3 values (A-wrap: the head version / value counter do not wrap)',
                  'RELY clauses of the free list are the GUARs of allocate/deallocate of other threads (asserted here for this thread; composition by reading, DESIGN 0.2)',
@@ -21,6 +24,13 @@ GROUP = dict(
         dict(id='C14.deallocate', enforce='IdAlloc_deallocate', loops=True, backend='cadical'),
         dict(id='C14.box.take_released', enforce='Box_take_released', backend='cadical'),
         dict(id='C14.box.emplace', enforce='Box_emplace__x', replace=['IdAlloc_allocate'], backend='cadical'),
+        dict(id='C14.accessor.move_ctor', enforce='Box_Accessor_ctor__AccessorR', backend='cadical'),
+        dict(id='C14.accessor.move_assign', enforce='Box_Accessor_op_assign__AccessorR', backend='cadical'),
+        dict(id='C14.accessor.dtor', enforce='Box_Accessor_dtor', replace=['Box_finish_released'], backend='cadical'),
+        dict(id='C14.threadid.leaky.ctor', enforce='internal_ThreadIdImpl_L_1_R_ctor__IdAllocator_L_unsigned_short_RR', backend='cadical'),
+        dict(id='C14.threadid.leaky.dtor', enforce='internal_ThreadIdImpl_L_1_R_dtor', backend='cadical'),
+        dict(id='C14.threadid.ctor', enforce='internal_ThreadIdImpl_L_0_R_ctor__IdAllocator_L_unsigned_short_RR', backend='cadical'),
+        dict(id='C14.threadid.dtor', enforce='internal_ThreadIdImpl_L_0_R_dtor', backend='cadical'),
         dict(id='C14.box.finish_released', enforce='Box_finish_released', replace=['IdAlloc_deallocate'], backend='cadical'),
     ],
 )
